@@ -845,6 +845,10 @@ func (g *generator) renderPkg(m *Module, p *gpkg, decls []*gpkg) {
 		add("var Default = newHidden()")
 		add("func Current() *hidden { return Default }")
 		add("func touchHidden() {\n" + indent([]string{"Default.X = 2 " + g.nextTag(), "_ = hidden{} " + g.nextTag()}) + "}")
+		add("// HiddenRec makes the unexported type nameable from outside.\ntype HiddenRec = hidden")
+		add("type HiddenList = []hidden")
+		add("// @packageonly\nfunc (h *hidden) Run() {}")
+		add("// @testonly\nfunc (h *hidden) Probe() {}")
 	}
 	for _, t := range p.relay {
 		ref := p.alias[t.pkg] + "." + t.name
@@ -898,7 +902,9 @@ func (g *generator) renderPkg(m *Module, p *gpkg, decls []*gpkg) {
 			}
 			if im.hidden {
 				a := p.alias[im]
-				ex = append(ex, a+".Default.X = 2", a+".Current().X++", a+".Current().Items[0] = 3", a+".Default.Items = nil", "_ = "+a+".Default.X", "h§ := "+a+".Current(); h§.X -= 1")
+				ex = append(ex, a+".Default.X = 2", a+".Current().X++", a+".Current().Items[0] = 3", a+".Default.Items = nil", "_ = "+a+".Default.X", "h§ := "+a+".Current(); h§.X -= 1",
+					"_ = "+a+".HiddenRec{}", "_ = new("+a+".HiddenRec)", "var hr§ "+a+".HiddenRec; _ = hr§", "_ = "+a+".HiddenList{{X: 1}}", "_ = &"+a+".HiddenRec{X: 2}",
+					a+".Current().Run()", a+".Default.Run()", "_ = "+a+".Default.Run", a+".Current().Probe()", a+".Default.Probe()")
 			}
 		}
 		if p.hidden {
@@ -1031,11 +1037,12 @@ func (g *generator) renderPkg(m *Module, p *gpkg, decls []*gpkg) {
 						"(&"+tr+"{X: "+c+"}).Mutate()", "_ = "+tr+"{X: 1,\n\tCache: "+c+"}")
 				}
 				if sv.t.pmeth {
-					ex = append(ex, "(&"+tr+"{}).Internal()", "new("+g.typeRef(p, sv.t, 12)+").Internal()")
+					ex = append(ex, "(&"+tr+"{}).Internal()", "new("+g.typeRef(p, sv.t, 12)+").Internal()", "(*"+tr+").Internal("+sv.name+")", "_ = (*"+tr+").Internal")
 				}
 				if sv.t.tmeth {
-					ex = append(ex, "(&"+tr+"{}).ResetForTest()")
+					ex = append(ex, "(&"+tr+"{}).ResetForTest()", "(*"+tr+").ResetForTest("+sv.name+")", "_ = (*"+tr+").ResetForTest")
 				}
+				ex = append(ex, "(*"+tr+").Mutate("+sv.name+")", "_ = "+tr+".Get(*"+sv.name+")")
 			}
 		}
 		if len(vars) > 0 && vars[0].t.kind == 0 {
@@ -1224,7 +1231,7 @@ func (g *generator) renderPkg(m *Module, p *gpkg, decls []*gpkg) {
 	for fi, decls := range files {
 		var sb strings.Builder
 		if g.o.Ignores && r.Chance(1, 12) {
-			sb.WriteString("// @ignore " + rng.Pick(r, []string{"IMM03", "CTOR02", "TONL", "PKGO02"}) + "\n")
+			sb.WriteString("// @ignore " + rng.Pick(r, []string{"IMM03", "CTOR02", "TONL", "PKGO02", "TONL01", "PKGO01", "IMM01", "CTOR01", "TONL03"}) + "\n")
 		}
 		sb.WriteString("package " + p.name + "\n\n")
 		body := strings.Join(decls, "\n\n") + "\n"
